@@ -17,6 +17,24 @@ class _Res:
         self.returncode, self.stdout, self.stderr = rc, out, ""
 
 
+def _kill_in(d):
+    """Ends every process whose working directory lies in d: Isabelle's back end starts a session of its own, so
+    ending tlapm's process group does not reach it."""
+    d = os.path.realpath(d)
+    for pid in os.listdir("/proc"):
+        if not pid.isdigit() or int(pid) == os.getpid():
+            continue
+        try:
+            cwd = os.readlink("/proc/%s/cwd" % pid)
+        except OSError:
+            continue
+        if cwd == d or cwd.startswith(d + "/") or cwd.startswith(d + " "):
+            try:
+                os.kill(int(pid), signal.SIGKILL)
+            except OSError:
+                pass
+
+
 def _run_group(cmd, cwd, timeout):
     """Runs tlapm as leader of a process group of its own and ends the whole group afterwards: tlapm may leave its
     back ends (z3, Isabelle's poly) behind when it gives up on an obligation - on a loaded machine they were found
@@ -30,6 +48,7 @@ def _run_group(cmd, cwd, timeout):
             os.killpg(p.pid, signal.SIGKILL)
         except (ProcessLookupError, PermissionError):
             pass
+        _kill_in(cwd)
         try:
             p.communicate(timeout=10)
         except Exception:  # noqa: BLE001
